@@ -168,7 +168,7 @@ func entryETag(e model.VEntry) string {
 
 // matchEntries tries to match a candidate entry list against the observed
 // listing of one key. On success it returns the candidate with ids filled in.
-func matchEntries(cand []model.VEntry, obs []drv.VerEntry) ([]model.VEntry, bool) {
+func matchEntries(cand []model.VEntry, obs []drv.VerEntry, taken map[string]bool) ([]model.VEntry, bool) {
 	if len(cand) != len(obs) {
 		return nil, false
 	}
@@ -198,6 +198,9 @@ func matchEntries(cand []model.VEntry, obs []drv.VerEntry) ([]model.VEntry, bool
 		found := false
 		for j, o := range obs {
 			if !used[j] && o.Marker == e.Marker && o.ETag == entryETag(e) {
+				if taken[o.ID] {
+					continue // that id is already known as another entry of the key
+				}
 				used[j], found = true, true
 				if o.ID != "null" && o.ID != "" {
 					out[i].ID = o.ID
@@ -224,7 +227,25 @@ func (s *verSys) resolve(op string, k string, pre []model.VEntry, cands [][]mode
 		if newID != "" && len(cc) > 0 && cc[len(cc)-1].ID == "" {
 			cc[len(cc)-1].ID = newID
 		}
-		if filled, ok := matchEntries(cc, obs); ok {
+		// ids the model already attributes to entries: an entry whose id is still unknown
+		// (a fresh null entry) cannot be one of them
+		taken := map[string]bool{}
+		for _, e := range pre {
+			if e.ID != "" {
+				taken[e.ID] = true
+			}
+		}
+		if filled, ok := matchEntries(cc, obs, taken); ok {
+			// the successor must also agree with what an unqualified read resolves to
+			// (entries with equal content are otherwise indistinguishable in the listing)
+			g := s.w.Get(s.bucket, k)
+			if len(filled) == 0 || filled[len(filled)-1].Marker {
+				if g.Status != 404 {
+					continue
+				}
+			} else if g.Status != 200 || string(g.Body) != string(filled[len(filled)-1].Body) {
+				continue
+			}
 			s.m.Set(k, filled)
 			for _, e := range filled {
 				if e.ID != "" {
@@ -284,7 +305,7 @@ func (s *verSys) syncIDs() {
 		return
 	}
 	for k, es := range s.m.Keys {
-		if filled, ok := matchEntries(es, obsAll[k]); ok {
+		if filled, ok := matchEntries(es, obsAll[k], nil); ok {
 			s.m.Keys[k] = filled
 		}
 	}
